@@ -71,6 +71,18 @@ BITMAP_FAMILIES = [
 ]
 
 
+# further bitmap / attribute programs for C07
+ATTRIBUTE_FAMILIES = [
+    T('bm-delayed4', [1004, 12001, 2001, 20011, 222000, 101000, 31001, 31031, 101000, 31001, 33007], no_missing=True, max_factor=4),
+    T('bm-nested-rep', [102002, 1004, 12001, 222000, 101004, 31031, 101000, 31001, 33007], no_missing=True, max_factor=2),
+    T('bm-redefine', [1004, 12001, 2001, 223000, 236000, 101003, 31031, 101000, 31001, 223255,
+                      224000, 236000, 101003, 31031, 8023, 101000, 31001, 224255], no_missing=True, max_factor=1),
+    T('bm-assoc', [204002, 31021, 1004, 204000, 12001, 222000, 101002, 31031, 101000, 31001, 33007], no_missing=True, max_factor=2),
+    T('bm-in-rep', [101002, 1004, 12001, 224000, 101003, 31031, 8023, 101000, 31001, 224255], no_missing=True, max_factor=3),
+    T('bm-chain-4', [1004, 2129, 222000, 236000, 101002, 31031, 101000, 31001, 33003, 223000, 237000, 101000, 31001, 223255,
+                     225000, 237000, 8024, 101000, 31001, 225255, 232000, 237000, 101000, 31001, 232255], no_missing=True, max_factor=1),
+]
+
 # compressed columns: few columns per program (each column forks on its 6-bit width and per-subset missing flags)
 COMPRESSED_FAMILIES = [
     T('c-num', [12001, 1004]),
@@ -95,7 +107,7 @@ COMPRESSED_FAMILIES = [
 
 
 def by_name(name):
-    for f in VALUE_FAMILIES + BITMAP_FAMILIES + COMPRESSED_FAMILIES:
+    for f in VALUE_FAMILIES + BITMAP_FAMILIES + ATTRIBUTE_FAMILIES + COMPRESSED_FAMILIES:
         if f['name'] == name:
             return f
     raise KeyError(name)
